@@ -391,7 +391,7 @@ def _fasta_shapes(tier):
         [(H, 1), (H, 1), (H, 1)],                               # record table grows (capacity 2)
     ]
     if tier != 'quick':
-        sets += [[(H, 2), (A, 5)], [(H, 2), (A, 3), (A, 3)], [(H, 1), (G, 3), (G, 3)], [(H, 2), (D, 2), (A, 2)], [(H, 1), (A, 2), (H, 1), (G, 2), (H, 1), (N, 2)],
+        sets += [[(H, 2), (A, 5)], [(H, 2), (A, 3), (A, 3)], [(H, 1), (G, 3), (G, 3)], [(H, 2), (D, 2), (A, 2)],
                  [(G, 2), (H, 2), (A, 2)], [(H, 4), (A, 1), (B, 1), (A, 1)]]
     out = []
     for t in sets:
@@ -458,7 +458,7 @@ PROPS['C16'] = dict(
 
 # =========================================================================== C04 msa-level operations
 def _merge_shapes(tier):
-    s = [(1, 2), (2, 1), (1, 1), (2, 3)] if tier == 'quick' else [(a, b) for a in range(1, 5) for b in range(1, 5)]
+    s = [(1, 2), (2, 1), (1, 1), (2, 3)] if tier == 'quick' else [(a, b) for a in range(1, 4) for b in range(1, 4)]
     return [dict(name='nd%d_ns%d' % (a, b), defs=dict(KV_ND=a, KV_NSRC=b)) for a, b in s]
 MSAOPS_SRCS = ['lib/src/msa_alloc.c', 'lib/src/msa_op.c', 'lib/src/alphabet.c']
 Q(id='C04.merge_msa', props=['C04', 'C05', 'C16'], cls='B', harness='c04_msa_ops.c', entry='h_c04_merge', shapes=_merge_shapes,
@@ -466,7 +466,7 @@ Q(id='C04.merge_msa', props=['C04', 'C05', 'C16'], cls='B', harness='c04_msa_ops
   funcs=['merge_msa', 'resize_msa', 'detect_alphabet', 'detect_aligned', 'set_sip_nsip', 'kalign_free_msa', 'free_msa_seq'],
   srcs=MSAOPS_SRCS, native_srcs=['lib/src/tldevel.c'] + MSAOPS_SRCS,
   trusted=[TRUST_MSG, A_LOG, 'realloc: byte-copy stub', 'R3 capacity shrink of msa_alloc.c (record table grows in steps of 2 instead of 512)'],
-  assumptions=[A_NOFAIL, A_WRAP, 'bounded: 1-2 (thorough 1-4) records in dest, 1-3 (1-4) in src'])
+  assumptions=[A_NOFAIL, A_WRAP, 'bounded: 1-2 (thorough 1-3) records in dest, 1-3 in src'])
 def _detect_shapes(tier):
     s = [(2, 1), (1, 1), (2, 2, 1)] if tier == 'quick' else [(2, 1), (1, 1), (2, 2, 1), (3, 3), (1, 2, 3), (0, 2)]
     return [dict(name='lens' + ''.join(map(str, t)), defs=dict(KV_LENS='{' + ','.join(map(str, t)) + '}')) for t in s]
